@@ -238,6 +238,22 @@ CHECKS["C19"] = dict(
     design="§7 C19",
 )
 
+CHECKS["C12"] = dict(
+    text=("Lean: same_answer_any_layout (the kernel result is independent of the value layout - contiguous or arrow chunks with arbitrary boundaries - and of "
+          "the thread count; corollary of groupKernel_eq_def); selection_is_element / reduction_selection_is_element / cum_selection_is_element: min, max, "
+          "first, last, cummin, cummax return the dtype's null or an element of the group's selected input values, end to end through masks, threads and "
+          "chunkings; wsum_eq / int_sum_exact / uint_sum_exact / wsum_append: accumulation with wrapping 64-bit additions (incl. merging thread partials) "
+          "equals the exact integer sum whenever it is representable; accumulator_table: the accumulator dtype / initial value table obtained by executing the "
+          "source text of _build_target_for_groupby on its whole finite domain (11 dtypes x 14 operations), checked by kernel evaluation. Correspondence: "
+          "3-4 arrangements of the same logical data over all key / value containers, chunk boundaries, thresholds and thread counts must give identical "
+          "labels and numbers; selection-type results are compared with the element computed from the logical data and must keep the input's dtype class "
+          "(width, unit, time zone); integer sums are compared with Python's exact sum (values up to 2**61)."),
+    note=("Integer dtypes holding nulls exist only in arrow / polars containers and are compared among those (open finding C12-nullable-int-rounded-through-float: "
+          "they travel as float64). Container normalisation (util._val_to_numpy, to_arrow, pandas / polars / pyarrow conversions) is tied by the differential runs only."),
+    technique="Lean 4 proof (layout independence, element-hood of selection results, exactness of wrapping 64-bit sums, generated accumulator table) + metamorphic container / dtype differential runs",
+    design="§7 C12",
+)
+
 NOT_APPLICABLE: list[dict] = []
 
 
